@@ -33,7 +33,7 @@ SCOPE = ('functional_step / functional_observation / every local reward and term
          'fast_copy(S) equals and hashes like S and shares nothing; memoised helpers (dijkstra lru_cache(10), cached ray fans) answer the same '
          'question equally after a symbolic choice of intervening calls that evict / collide, and equal a fresh uncached computation')
 BOUNDS = {
-    'quick': dict(step='every built-in transition function and shipped chain, shapes 1x1..2x2, 1x3, 3x1, 33-object alphabet incl. nested boxes, any held item',
+    'quick': dict(whole_grid_views='1x3 world/1x3 view (any pose), 2x3 world/2x3 view at the pose where they coincide (3 objects); the same shortest-path question after a question on a grid of another shape (2x6, 3x4, 4x3, 6x2)', step='every built-in transition function and shipped chain, shapes 1x1..2x2, 1x3, 3x1, 33-object alphabet incl. nested boxes, any held item',
                   observation='4 observation functions, worlds 2x2, views 2x3 / 3x3, 6-object alphabet', rewards='7 local rewards, 4 terminations on shapes <=2x2; 5 scanning rewards on 2x2 under their preconditions',
                   copy='shapes 1x1, 1x2 over a 9-object alphabet (2x2: 5 objects) with Box(Box(Floor)), Box(Key), doors of 3 statuses; held item of the same alphabet',
                   history='question = getting_closer_shortest_path / raytracing on 3x3; intervening menu: 0..12 other layouts (>= 11 evict the cache), same layout with '
